@@ -93,6 +93,12 @@ TxStart(c) ==
              /\ viol' = IF reloadPc = "idle" /\ pools.def # config THEN viol \cup {"old_definition_after_reload"} ELSE viol
   /\ UNCHANGED <<file, config, pools, nextObj, reloadPc, staged, cobj, applied, paused, parked>>
 
+\* A one-statement transaction on a table that definition "P" guards with the table_access plugin (same servers as "A"):
+\* whether it is refused depends on the definition in effect when it starts.  No model state changes; the expectation is
+\* evaluated by the trace specification.
+Probe(c) == /\ tx[c] = -1 /\ ~paused /\ parked[c] = -1 /\ nops < MaxOps /\ nops' = nops + 1
+            /\ UNCHANGED <<file, config, pools, nextObj, reloadPc, staged, tx, txdef, cobj, viol, applied, paused, parked>>
+
 \* A statement inside the transaction runs on the object the transaction started on.
 TxStep(c) ==
   /\ tx[c] \notin {-1, -2} /\ nops < MaxOps /\ nops' = nops + 1
@@ -105,7 +111,7 @@ TxEnd(c) == /\ tx[c] # -1 /\ tx' = [tx EXCEPT ![c] = -1]
             /\ UNCHANGED <<file, config, pools, nextObj, reloadPc, staged, txdef, cobj, nops, viol, applied, paused, parked>>
 
 Next == (\E f \in Files : WriteFile(f)) \/ ReloadParse \/ ReloadApply \/ Pause \/ Resume
-        \/ (\E c \in Clients : TxStart(c) \/ TxStep(c) \/ TxEnd(c) \/ Park(c))
+        \/ (\E c \in Clients : TxStart(c) \/ TxStep(c) \/ TxEnd(c) \/ Park(c) \/ Probe(c))
 Spec == Init /\ [][Next]_vars
 
 \* C14
